@@ -338,6 +338,7 @@ def c01_rf18(run):
     rf_flow.rf131(run)
     rf_proto.rf138(run)
     rf_x86.rf140(run)
+    rf_flow.rf148(run)
 
 
 def c04_rf18(run):
